@@ -443,6 +443,37 @@ pub fn generate(prop: &str, seed: u64) -> Scenario {
         }
         "C14" => gen_c14(seed, r),
         "C14enum" => gen_c14_enum(seed),
+        "C13miri" => {
+            // the same family as C13, small enough for the Miri interpreter
+            let mut scn = base(seed, r, 10, 3, &Src::ALL_FINITE);
+            miri_size(r, &mut scn);
+            scn.term = gen_any_term(r, &scn);
+            if r.chance(1, 4) {
+                scn.term = Term::Find(Pred::Ids(vec![]));
+            }
+            fit_depth(&mut scn);
+            refresh_pred(r, &mut scn);
+            scn
+        }
+        "C14miri" => {
+            let mut scn = base(seed, r, 10, 3, &Src::ALL_FINITE);
+            miri_size(r, &mut scn);
+            scn.term = gen_any_term(r, &scn);
+            fit_depth(&mut scn);
+            refresh_pred(r, &mut scn);
+            let rf = reference(&scn);
+            let sites = all_fault_sites(&scn, &rf);
+            if !sites.is_empty() {
+                scn.faults.push(sites[r.below(sites.len())]);
+                if r.chance(1, 3) {
+                    let f2 = sites[r.below(sites.len())];
+                    if f2 != scn.faults[0] {
+                        scn.faults.push(f2);
+                    }
+                }
+            }
+            scn
+        }
         "C15" => gen_c15(seed, r),
         _ => {
             let mut scn = base(seed, r, 300, 3, &Src::ALL_FINITE);
@@ -487,6 +518,27 @@ pub fn gen_any_term(r: &mut Rng, scn: &Scenario) -> Term {
         19 => Term::Any(gen_pred(r, scn)),
         20 => Term::All(gen_pred(r, scn)),
         _ => Term::MinByKey(r.range(1, 5) as u8),
+    }
+}
+
+/// small thread counts and chunks: every step costs milliseconds under the interpreter
+fn miri_size(r: &mut Rng, scn: &mut Scenario) {
+    for x in scn.nt.iter_mut() {
+        if x.1 == 0 || x.1 > 3 {
+            x.1 = r.range(2, 3);
+        }
+    }
+    if scn.nt.is_empty() {
+        scn.nt.push((0, r.range(2, 3)));
+    }
+    scn.avail = r.range(2, 4);
+    for c in scn.cs.iter_mut() {
+        c.1 = match c.1 {
+            Chunk::Raw(x) => Chunk::Raw(x.min(4)),
+            Chunk::Exact(x) => Chunk::Exact(x.min(4)),
+            Chunk::Min(x) => Chunk::Min(x.min(4)),
+            x => x,
+        };
     }
 }
 
